@@ -650,4 +650,49 @@ def _tls_models(ex, st, fr, c, last, args):
 
 
 def _fmt_models(ex, st, fr, c, last, args):
+    """observation points at the boundary to core::fmt / alloc::fmt: the arguments are recorded, nothing is rendered"""
+    E = _E()
+    m = re.match(r"^core::fmt::rt::Argument::<'_>::new_(display|debug)::<(.*)>$", c)
+    if m:
+        _use("core::fmt::rt::Argument::new_display/new_debug (observation)")
+        v = _deref_all(ex, st, args[0])
+        return E.Opaque("fmtarg", (m.group(1), m.group(2), v))
+    if re.match(r"^core::fmt::rt::Argument::<'_>::from_usize$", c):
+        _use("core::fmt::rt::Argument::from_usize (observation)")
+        return E.Opaque("fmtarg", ("usize", "usize", _deref_all(ex, st, args[0])))
+    if re.match(r"^(core::fmt::)?Arguments::<'_>::new::<\d+, \d+>$", c):
+        _use("core::fmt::Arguments::new (observation: template bytes + argument array)")
+        tpl = args[0]
+        arr = _deref_all(ex, st, args[1])
+        return E.Opaque("Arguments", (tpl.s if isinstance(tpl, E.StrV) else tpl, list(arr.fields)))
+    if re.match(r"^(core::fmt::)?Arguments::<'_>::from_str$", c):
+        return E.Opaque("Arguments", (args[0].s if isinstance(args[0], E.StrV) else args[0], []))
+    if c in ("format", "alloc::fmt::format", "std::fmt::format"):
+        _use("alloc::fmt::format (observation; rendering is core::fmt's documented behaviour)")
+        a = args[0]
+        st.obs.append(("format", a.payload))
+        return E.Opaque("String", ("format",) + tuple(a.payload))
+    if re.match(r"^<(%s) as ToString>::to_string$" % INTS, c):
+        _use("<int as ToString>::to_string (observation)")
+        v = _deref_all(ex, st, args[0])
+        st.obs.append(("int_to_string", v))
+        return E.Opaque("String", ("int_to_string", v))
+    if re.match(r"^(core::fmt::)?Formatter::<'_>::precision$", c):
+        _use("Formatter::precision (environment input)")
+        f = _deref_all(ex, st, args[0])
+        return f.payload["precision"]
+    if re.match(r"^(core::fmt::)?Formatter::<'_>::pad_integral$", c):
+        _use("Formatter::pad_integral (observation; width/fill/alignment/sign handling is core::fmt's documented integer formatting)")
+        buf = args[3]
+        st.obs.append(("pad_integral", args[1], args[2], buf))
+        return E.EnumV("Result", 0, (E.UNIT,))
+    if re.match(r"^(core::fmt::)?Formatter::<'_>::write_fmt$", c):
+        _use("Formatter::write_fmt (observation)")
+        st.obs.append(("write_fmt", args[1].payload))
+        return E.EnumV("Result", 0, (E.UNIT,))
+    if re.match(r"^(core::fmt::)?Formatter::<'_>::write_str$", c):
+        st.obs.append(("write_str", args[1]))
+        return E.EnumV("Result", 0, (E.UNIT,))
+    if c in ("<String as Deref>::deref", "String::as_str"):
+        return _deref_all(ex, st, args[0])
     return NotImplemented
